@@ -607,6 +607,108 @@ def _coalesce_branch_copy(fn: ast.AST, keep: set[str] | None = None) -> bool:
     return done
 
 
+def _rows_in_place(fn: ast.AST, keep: set[str] | None = None) -> bool:
+    """N23: a table initialised as `T = {a: {k: c for k in ks} for a, ks in W.items()}` whose row is later replaced
+    wholesale by a dict over the same keys — `T[a] = {k: V for k in W[a]}`, or `L = {k: c2 for k in W[a]}; …
+    L[k] = v …; T[a] = L` — is the table updated in place entry by entry (`for k in W[a]: T[a][k] = V`, `T[a][k] = v`):
+    same keys in the same order, so the same table."""
+    if not isinstance(fn, (ast.FunctionDef, ast.AsyncFunctionDef)):
+        return False
+    tables: dict[str, str] = {}          # T -> W
+    inits0: dict[str, ast.expr] = {}     # T -> the constant every entry starts with
+    for n in _own_nodes(fn):
+        if isinstance(n, ast.Assign) and len(n.targets) == 1 and isinstance(n.targets[0], ast.Name) and isinstance(n.value, ast.DictComp) and len(n.value.generators) == 1:
+            g = n.value.generators[0]
+            if isinstance(g.iter, ast.Call) and isinstance(g.iter.func, ast.Attribute) and g.iter.func.attr == 'items' and isinstance(g.iter.func.value, ast.Name) \
+                    and isinstance(g.target, ast.Tuple) and len(g.target.elts) == 2 and all(isinstance(x, ast.Name) for x in g.target.elts) and not g.ifs \
+                    and isinstance(n.value.key, ast.Name) and n.value.key.id == g.target.elts[0].id and isinstance(n.value.value, ast.DictComp) \
+                    and len(n.value.value.generators) == 1 and not n.value.value.generators[0].ifs \
+                    and isinstance(n.value.value.generators[0].iter, ast.Name) and n.value.value.generators[0].iter.id == g.target.elts[1].id \
+                    and isinstance(n.value.value.key, ast.Name) and isinstance(n.value.value.generators[0].target, ast.Name) \
+                    and n.value.value.key.id == n.value.value.generators[0].target.id:
+                tables[n.targets[0].id] = g.iter.func.value.id
+                inits0[n.targets[0].id] = n.value.value.value
+    if not tables:
+        return False
+
+    def row_keys(e: ast.expr, W: str, a: str) -> bool:
+        # W[a], W[a].keys(), or a local alias is not followed
+        if isinstance(e, ast.Call) and isinstance(e.func, ast.Attribute) and e.func.attr == 'keys' and not e.args:
+            e = e.func.value
+        return isinstance(e, ast.Subscript) and isinstance(e.value, ast.Name) and e.value.id == W and ast.unparse(e.slice) == a
+    done = False
+    for _owner, blk in list(_blocks(fn)):
+        k = 0
+        while k < len(blk):
+            st = blk[k]
+            k += 1
+            if not (isinstance(st, ast.Assign) and len(st.targets) == 1 and isinstance(st.targets[0], ast.Subscript) and isinstance(st.targets[0].value, ast.Name)
+                    and st.targets[0].value.id in tables):
+                continue
+            T = st.targets[0].value.id
+            W = tables[T]
+            a = ast.unparse(st.targets[0].slice)
+            v = st.value
+            if isinstance(v, ast.DictComp) and len(v.generators) == 1 and not v.generators[0].ifs and isinstance(v.generators[0].target, ast.Name) \
+                    and isinstance(v.key, ast.Name) and v.key.id == v.generators[0].target.id and row_keys(v.generators[0].iter, W, a):
+                g = v.generators[0]
+                tgt = ast.Subscript(value=ast.Subscript(value=ast.Name(id=T, ctx=ast.Load()), slice=copy.deepcopy(st.targets[0].slice), ctx=ast.Load()),
+                                    slice=ast.Name(id=g.target.id, ctx=ast.Load()), ctx=ast.Store())
+                loop = ast.For(target=ast.Name(id=g.target.id, ctx=ast.Store()), iter=g.iter, body=[ast.Assign(targets=[tgt], value=v.value, lineno=st.lineno)], orelse=[], type_comment=None)
+                ast.copy_location(loop, st)
+                ast.fix_missing_locations(loop)
+                blk[k - 1] = loop
+                done = True
+                continue
+            if isinstance(v, ast.Name) and v.id not in (keep or ()):
+                L = v.id
+                inits = [(b2, x) for _o, b2 in _blocks(fn) for x in b2 if isinstance(x, ast.Assign) and len(x.targets) == 1 and isinstance(x.targets[0], ast.Name) and x.targets[0].id == L]
+                if len(inits) != 1 or inits[0][0] is not blk:
+                    continue
+                ini = inits[0][1]
+                iv = ini.value
+                if not (isinstance(iv, ast.DictComp) and len(iv.generators) == 1 and not iv.generators[0].ifs and isinstance(iv.generators[0].target, ast.Name)
+                        and isinstance(iv.key, ast.Name) and iv.key.id == iv.generators[0].target.id and row_keys(iv.generators[0].iter, W, a)):
+                    continue
+                # every other occurrence of L is `L[<key>]` (load or store) between the init and the row assignment
+                i0, i1 = blk.index(ini), k - 1
+                occ = [n for x in ast.walk(fn) for n in [x] if isinstance(n, ast.Name) and n.id == L]
+                inside = [n for x in blk[i0 + 1:i1] for n in ast.walk(x) if isinstance(n, ast.Name) and n.id == L]
+                if len(occ) != len(inside) + 2:
+                    continue
+                subs = [n for x in blk[i0 + 1:i1] for n in ast.walk(x) if isinstance(n, ast.Subscript) and isinstance(n.value, ast.Name) and n.value.id == L]
+                if len(subs) != len(inside):
+                    continue
+                # the initial values c2 are overwritten or equal to the table's own initial values: require that every key is stored
+                # (a loop over W[a] / its items that stores L[key]); otherwise keep the code as written
+                for n in subs:
+                    n.value = ast.copy_location(ast.Subscript(value=ast.Name(id=T, ctx=ast.Load()), slice=copy.deepcopy(st.targets[0].slice), ctx=ast.Load()), n.value)
+                g = iv.generators[0]
+                tgt = ast.Subscript(value=ast.Subscript(value=ast.Name(id=T, ctx=ast.Load()), slice=copy.deepcopy(st.targets[0].slice), ctx=ast.Load()),
+                                    slice=ast.Name(id=g.target.id, ctx=ast.Load()), ctx=ast.Store())
+                loop = ast.For(target=ast.Name(id=g.target.id, ctx=ast.Store()), iter=g.iter, body=[ast.Assign(targets=[tgt], value=iv.value, lineno=ini.lineno)], orelse=[], type_comment=None)
+                ast.copy_location(loop, ini)
+                ast.fix_missing_locations(loop)
+                def _cst(e_: ast.AST | None) -> bool:
+                    return isinstance(e_, ast.Constant) or (isinstance(e_, ast.UnaryOp) and isinstance(e_.op, ast.USub) and isinstance(e_.operand, ast.Constant))
+                same_init = _cst(iv.value) and _cst(inits0.get(T)) and ast.dump(iv.value) == ast.dump(inits0[T]) \
+                    and not any(isinstance(x, ast.Assign) and isinstance(x.targets[0], ast.Subscript) and ast.unparse(x.targets[0].value).startswith(T + '[')
+                                for x in blk[:i0])
+                if same_init:
+                    # the row is re-initialised with the value the table was created with and nothing wrote to it before
+                    del blk[i1]
+                    del blk[i0]
+                    k -= 2
+                else:
+                    blk[i0] = loop
+                    del blk[i1]
+                    k -= 1
+                for x in blk:
+                    ast.fix_missing_locations(x)
+                done = True
+    return done
+
+
 def _collapse_rmw(fn: ast.AST, keep: set[str] | None = None) -> bool:
     """N19: `t = L; t op= e; L = t` (t a temporary used nowhere else, L an attribute or subscript) is `L op= e`:
     the same load, in-place operator and store that the augmented assignment to L performs."""
@@ -699,6 +801,7 @@ def _fold(fn: ast.AST, keep: set[str] | None = None) -> None:
                 blk[k] = ast.copy_location(ast.Assign(targets=[tgt], value=v, lineno=st.lineno), st)
     _collapse_rmw(fn, keep)
     _coalesce_branch_copy(fn, keep)
+    _rows_in_place(fn, keep)
 
 
 def _root_name(e: ast.AST) -> str | None:
